@@ -112,6 +112,72 @@ def checkArgument (b : Bool) : R Unit := if b then .ok () else .error .valueErro
 /-- `_Preconditions._check_state(expression, message)`: RuntimeError when the expression is false -/
 def checkState (b : Bool) : R Unit := if b then .ok () else .error .runtimeError
 
+/-! ### builtin containers (bytes / bytearray as `List Nat`, lists, dicts as association lists) -/
+
+/-- `len(x)` of a bytes / list / dict value (pure: the builtin containers never report a negative or oversize length) -/
+def pyLenList {α} (l : List α) : Int := (l.length : Int)
+
+/-- `b[i]` on a bytes value: an int; negative indices count from the end, `IndexError` outside -/
+def pyBytesIndex (b : List Nat) (i : Int) : R Int :=
+  let n : Int := b.length
+  let j := if i < 0 then i + n else i
+  if 0 ≤ j ∧ j < n then (match b[j.toNat]? with | some v => .ok (v : Int) | none => .error .indexError) else .error .indexError
+
+/-- `bytearray.extend(chunk)` -/
+def pyBytesExtend (a b : List Nat) : List Nat := a ++ b
+
+/-- `list.append(x)` -/
+def pyListAppend {α} (l : List α) (x : α) : List α := l ++ [x]
+
+/-- `bytes([v])`: one byte; `ValueError` outside `range(256)` -/
+def pyBytes1 (v : Int) : R (List Nat) := if 0 ≤ v ∧ v ≤ 255 then .ok [v.toNat] else .error .valueError
+
+/-- `SomeIntEnum(x)`: x when a member has that value, `ValueError` otherwise -/
+def pyEnumLookup (l : List Int) (x : Int) : R Int := if l.contains x then .ok x else .error .valueError
+
+/-- `x in l` for a list of ints -/
+def pyIntListContains (l : List Int) (x : Int) : Bool := l.contains x
+
+/-- `l.index(x)` for a list of ints: the first position of x, `ValueError` when absent -/
+def pyIntListIndexOf (l : List Int) (x : Int) : R Int :=
+  let i := l.findIdx (· = x)
+  if i < l.length then .ok (i : Int) else .error .valueError
+
+/-- `d[k] = v` on an insertion-ordered dict with int keys and values (an association list) -/
+def pyIntDictSet (d : List (Int × Int)) (k v : Int) : List (Int × Int) :=
+  if d.any (·.1 = k) then d.map (fun e => if e.1 = k then (k, v) else e) else d ++ [(k, v)]
+
+/-- `d[k]`: `KeyError` for a missing key -/
+def pyIntDictGet (d : List (Int × Int)) (k : Int) : R Int :=
+  match d.find? (·.1 = k) with
+  | some e => .ok e.2
+  | none => .error .keyError
+
+/-- `try: BODY except A: raise X from e / except B: raise`: the exception BODY raised is translated by the FIRST handler whose
+    classes contain it (`some X`: to X; `none`: a bare `raise`, the same exception); no handler: it propagates.  The
+    out-of-domain marker `decimalDomain` is never caught. -/
+def pyTry {α} (handlers : List (List PyExc × Option PyExc)) (body : R α) : R α :=
+  match body with
+  | .ok v => .ok v
+  | .error e =>
+    if e = .decimalDomain then .error e
+    else match handlers.find? (fun h => h.1.contains e) with
+      | some (_, some x) => .error x
+      | _ => .error e
+
+/-- `k in d` -/
+def pyIntDictContains (d : List (Int × Int)) (k : Int) : Bool := d.any (·.1 = k)
+
+/-- `del d[k]`: `KeyError` for a missing key; the other entries keep their order -/
+def pyIntDictDel (d : List (Int × Int)) (k : Int) : R (List (Int × Int)) :=
+  if d.any (·.1 = k) then .ok (d.filter (fun e => e.1 ≠ k)) else .error .keyError
+
+/-- `deque.popleft()`: the leftmost element and the rest, `IndexError` on an empty deque -/
+def pyIntListPopleft (l : List Int) : R (Int × List Int) :=
+  match l with
+  | [] => .error .indexError
+  | x :: r => .ok (x, r)
+
 end Pyoda.Gen
 
 /-! Counterparts of the helper functions and the class `Vec` of the translator's self-test corpus
@@ -153,5 +219,67 @@ structure Holder where
 /-- must-refuse corpus: an object type with one virtual member -/
 structure Obj where
   virt : Int → Int → Int
+
+/-! the stateful part of the corpus (tools/py2lean_selftest/corpus/stateful.py) -/
+
+/-- `Source`: a stream that hands out at most `chunk` bytes per read -/
+structure Src where
+  data : List Nat
+  chunk : Nat
+
+/-- the `Reader` object of the corpus -/
+structure RdState where
+  src : Src
+  peeked : Option Int
+  total : Int
+  log : Option (List Int)
+
+/-- `self.__src.read(n)` -/
+def RdState.read (st : RdState) (n : Int) : List Nat × RdState :=
+  let k := if n < 0 then st.src.data.length else min (min n.toNat st.src.chunk) st.src.data.length
+  (st.src.data.take k, { st with src := { st.src with data := st.src.data.drop k } })
+
+/-- `Reader.make(a, b)` -/
+def mkRd (a b : Int) : RdState :=
+  let n := (Int.fmod b 7).toNat
+  ⟨⟨(List.range n).map (fun (i : Nat) => (Int.fmod (a * ((i : Int) + 3) + (i : Int) * (i : Int)) 256).toNat), 1 + (Int.fmod b 3).toNat⟩,
+   if Int.fmod a 2 = 0 then none else some (Int.fmod a 256), Int.fmod a 11,
+   if Int.fmod b 2 = 0 then none else some [Int.fmod a 5]⟩
+
+def showOptInt : Option Int → String
+  | none => "None"
+  | some v => toString v
+
+def showIntList (l : List Int) : String := "[" ++ ", ".intercalate (l.map toString) ++ "]"
+
+/-- `Reader.show()` -/
+def showRd (st : RdState) : String :=
+  showIntList (st.src.data.map Int.ofNat) ++ " " ++ showOptInt st.peeked ++ " " ++ toString st.total ++ " " ++
+    (match st.log with | none => "None" | some l => showIntList l)
+
+/-- `_lookup(v)`: KeyError for 13, IndexError for 17, RuntimeError for 19, else 2v -/
+def lookup (v : Int) : R Int :=
+  if v = 13 then .error .keyError else if v = 17 then .error .indexError else if v = 19 then .error .runtimeError else .ok (v * 2)
+
+/-- `s.add(x)` on a set carried as the list of its elements in insertion order -/
+def setAdd (s : List Int) (x : Int) : List Int := if s.contains x then s else s ++ [x]
+/-- `d.get(k)` -/
+def mapGet (d : List (Int × Int)) (k : Int) : Option Int := (d.find? (·.1 = k)).map (·.2)
+
+/-- the `Lru` object of the corpus: `__limit`, `__order` (a deque), `__table` (a dict) -/
+structure LruState where
+  limit : Int
+  order : List Int
+  table : List (Int × Int)
+
+/-- `Lru.make(a, b)` -/
+def mkLru (a b : Int) : LruState :=
+  let n := (Int.fmod b 5).toNat
+  let ks := (List.range n).map (fun (i : Nat) => Int.fmod (a + 2 * (i : Int)) 7)
+  ⟨Int.fmod a 4, ks, ks.foldl (fun d k => pyIntDictSet d k (k * k + 1)) []⟩
+
+def showLru (st : LruState) : String :=
+  toString st.limit ++ " " ++ showIntList st.order ++ " " ++
+    "{" ++ ", ".intercalate (st.table.map (fun e => toString e.1 ++ ": " ++ toString e.2)) ++ "}"
 
 end Pyoda.Gen.SelftestSupport
